@@ -193,43 +193,55 @@ Fixpoint fill_tokens (width indent : nat) (tokens : list string) : option (optio
       end
   end.
 
+(* the part of wrap up to "Save the new first line": (first or an error, text) *)
+Definition first0_of (text1 : string) : string :=
+  let line0 := match split_on nl text1 with l :: _ => l | [] => EmptyString end in
+  line0 ++ nl1 ++ (if ends_with_c ":"%char line0 then nl1 else EmptyString).
+
+Definition wrap_head (text1 : string) (width offset : nat) : res * string :=
+  let first0 := first0_of text1 in
+  if width - offset <? String.length first0 then
+    match tw_wrap (width - offset) EmptyString EmptyString first0 with
+    | None => (ValueErr, text1)
+    | Some None => (OutOfFuel, text1)
+    | Some (Some initial) =>
+        let text2 :=
+          if contains nl text1 then
+            let remaining := sconcat (tl (split_on nl text1)) in
+            if is_list_item (strip remaining) then text1 else repl_first_nl text1
+          else text1 in
+        match initial with
+        | l0 :: _ => (Ok (l0 ++ nl1), text2)
+        | [] => (IndexErr, text2)
+        end
+    end
+  else (Ok first0, text1).
+
+(* the rest of wrap: colon rule, the slice text[len(first):], tokenisation, fill, join *)
+Definition wrap_tail (first text2 : string) (width indent : nat) : res :=
+  let text3 := sdrop (String.length first) (colon_sub text2) in
+  if is_empty text3 then Ok (strip first) else
+  let new_line := match text3 with String c _ => if Ascii.eqb c nl then nl1 else EmptyString | _ => EmptyString end in
+  let text4 := new_line ++ strip text3 in
+  let tokens := tokenize width (split_on nl text4) EmptyString [] in
+  match fill_tokens width indent tokens with
+  | None => ValueErr
+  | Some None => OutOfFuel
+  | Some (Some parts) => Ok (rstrip_nl (first ++ sjoin nl1 parts))
+  end.
+
 Definition wrap (text : string) (width offset indent : nat) : res :=
   if is_empty text then Ok EmptyString else
-  let text1 := repl_nlsp text in
-  let line0 := match split_on nl text1 with l :: _ => l | [] => EmptyString end in
-  let first0 := line0 ++ nl1 ++ (if ends_with_c ":"%char line0 then nl1 else EmptyString) in
-  let overlong := width - offset <? String.length first0 in
-  let r1 : res * string :=      (* (first or an error, text) *)
-    if overlong then
-      match tw_wrap (width - offset) EmptyString EmptyString first0 with
-      | None => (ValueErr, text1)
-      | Some None => (OutOfFuel, text1)
-      | Some (Some initial) =>
-          let text2 :=
-            if contains nl text1 then
-              let remaining := sconcat (tl (split_on nl text1)) in
-              if is_list_item (strip remaining) then text1 else repl_first_nl text1
-            else text1 in
-          match initial with
-          | l0 :: _ => (Ok (l0 ++ nl1), text2)
-          | [] => (IndexErr, text2)
-          end
-      end
-    else (Ok first0, text1) in
-  match r1 with
-  | (Ok first, text2) =>
-      let text3 := sdrop (String.length first) (colon_sub text2) in
-      if is_empty text3 then Ok (strip first) else
-      let new_line := match text3 with String c _ => if Ascii.eqb c nl then nl1 else EmptyString | _ => EmptyString end in
-      let text4 := new_line ++ strip text3 in
-      let tokens := tokenize width (split_on nl text4) EmptyString [] in
-      match fill_tokens width indent tokens with
-      | None => ValueErr
-      | Some None => OutOfFuel
-      | Some (Some parts) => Ok (rstrip_nl (first ++ sjoin nl1 parts))
-      end
+  match wrap_head (repl_nlsp text) width offset with
+  | (Ok first, text2) => wrap_tail first text2 width indent
   | (e, _) => e
   end.
+
+(* Metadata.doc: the best comment *)
+Definition meta_doc (leading trailing : string) (detached : list string) : string :=
+  if negb (is_empty leading) then strip leading
+  else if negb (is_empty trailing) then strip trailing
+  else sjoin (nl1 ++ nl1) detached.
 
 (* ---------------------------------------------------------------- gapic.utils.rst.rst *)
 (* re.search(r"[|*`_[\]]", text) *)
